@@ -133,8 +133,22 @@ Definition update_pool (h : Z) (b : ledger) (p : pool) (amount : Z) (destroy : b
   end.
 
 (** ** types/farm.go CaclRewards *)
-Definition debt_of (rps locked : Z) : Z := dec_truncate_int (dec_mul_int rps locked).
-Definition pending_of (rps locked debt : Z) : Z := dec_truncate_int (dec_mul_int rps locked) - debt.
+(** (as repaired by the [fix:] commit of the farm group: the debt of the stake added / removed
+    is rounded against the farmer and a pending amount is only paid when it is positive)
+
+    [acc_total]  = RewardPerShare.MulInt(locked).TruncateInt()
+    [pay_of]     = what is paid for one rule: the truncated total above the debt, if any
+    [debt_paid]  = the debt once that has been paid
+    [debt_delta] = RewardPerShare.MulInt(|delta|), rounded up for an addition
+                   ([Ceil().TruncateInt()]) and down for a removal ([TruncateInt()]) *)
+Definition acc_total (rps locked : Z) : Z := dec_truncate_int (dec_mul_int rps locked).
+Definition pays (rps locked debt : Z) : bool := (0 <? locked) && (debt <? acc_total rps locked).
+Definition pay_of (rps locked debt : Z) : Z := if pays rps locked debt then acc_total rps locked - debt else 0.
+Definition debt_paid (rps locked debt : Z) : Z := if pays rps locked debt then acc_total rps locked else debt.
+Definition debt_delta (rps delta : Z) : Z :=
+  if delta <? 0 then - dec_truncate_int (dec_mul_int rps (- delta))
+  else dec_truncate_int (dec_ceil (dec_mul_int rps delta)).
+Definition new_debt (rps locked debt delta : Z) : Z := debt_paid rps locked debt + debt_delta rps delta.
 
 (** [None] = [sdk.NewCoin] panics on a negative amount.  Rewards are listed per rule, zero
     amounts included (the caller drops them as [sdk.Coins.Add] does). *)
@@ -144,11 +158,11 @@ Fixpoint cacl (rs : list rule) (locked : Z) (debts : list Z) (delta : Z) : optio
   | r :: rest =>
       let d := match debts with [] => 0 | d :: _ => d end in
       let ds := match debts with [] => [] | _ :: ds => ds end in
-      let pend := if 0 <? locked then pending_of (r_rps r) locked d else 0 in
-      if (pend <? 0) || (locked + delta <? 0) then None
+      let nd := new_debt (r_rps r) locked d delta in
+      if nd <? 0 then None
       else match cacl rest locked ds delta with
            | None => None
-           | Some (rw, db) => Some ((r_denom r, pend) :: rw, debt_of (r_rps r) (locked + delta) :: db)
+           | Some (rw, db) => Some ((r_denom r, pay_of (r_rps r) locked d) :: rw, nd :: db)
            end
   end.
 
@@ -353,8 +367,17 @@ Definition destroy (s : state) (who : acct) (pid : Z) : result :=
          end
   end.
 
-(** pool.go AdjustPool.  [available] restates the [sdk.Coins] value [availableReward]: a coin
-    whose amount is zero is not in it. *)
+(** pool.go AdjustPool, per rule: the top-up, the new reward per block ([UpdateWith]), and
+    [availableReward.AmountOf(rule.Reward)] (the rule's [r] here already carries the top-up) *)
+Definition adj_topup (add : list (denom * Z)) (r : rule) : rule :=
+  mkRule (r_denom r) (r_total r + amount_of add (r_denom r)) (r_rem r + amount_of add (r_denom r)) (r_pb r) (r_rps r).
+Definition adj_pb (rpb : list (denom * Z)) (r : rule) : rule :=
+  mkRule (r_denom r) (r_total r) (r_rem r)
+         (if 0 <? amount_of rpb (r_denom r) then amount_of rpb (r_denom r) else r_pb r) (r_rps r).
+Definition adj_avail (started : bool) (remaining_height : Z) (add : list (denom * Z)) (r : rule) : Z :=
+  if started then r_pb r * remaining_height + amount_of add (r_denom r) else r_total r.
+
+(** pool.go AdjustPool *)
 Definition adjust (s : state) (who : acct) (pid : Z) (add rpb : list (denom * Z)) : result :=
   if match add, rpb with [], [] => true | _, _ => false end then Fail Rej
   else if negb (sorted_strict (map fst add) && sorted_strict (map fst rpb)
@@ -379,18 +402,12 @@ Definition adjust (s : state) (who : acct) (pid : Z) (add rpb : list (denom * Z)
         match send_many b1 who FARM add with
         | None => Fail Rej
         | Some b2 =>
-          let rs1 := map (fun r => mkRule (r_denom r) (r_total r + amount_of add (r_denom r))
-                                         (r_rem r + amount_of add (r_denom r)) (r_pb r) (r_rps r)) (p_rules p1) in
-          let available :=
-            if started then
-              map (fun r => (r_denom r, r_pb r * (p_end p1 - start_h) + amount_of add (r_denom r))) rs1
-            else map (fun r => (r_denom r, r_total r)) rs1 in
-          let rs2 := map (fun r => mkRule (r_denom r) (r_total r) (r_rem r)
-                                         (if 0 <? amount_of rpb (r_denom r) then amount_of rpb (r_denom r) else r_pb r)
-                                         (r_rps r)) rs1 in
-          let pb_of d := match find (fun r => r_denom r =? d) rs2 with Some r => r_pb r | None => 0 end in
-          match min_interval (map (fun c => (snd c, pb_of (fst c))) (positive_coins available)) with
-          | None => Fail Abort                      (* availableReward[0] on an empty list *)
+          let rs1 := map (adj_topup add) (p_rules p1) in
+          let rs2 := map (adj_pb rpb) rs1 in
+          (* as repaired by the second [fix:] commit: every rule limits the height, also one whose
+             available reward is zero *)
+          match min_interval (map (fun r => (adj_avail started (p_end p1 - start_h) add r, r_pb (adj_pb rpb r))) rs1) with
+          | None => Fail Abort                      (* unreachable: updatePool rejects an empty rule set *)
           | Some iv =>
             let e := start_h + iv in
             let p2 := with_rules p1 rs2 in
